@@ -151,6 +151,20 @@ class Setup:
             used.update(t.refs())
             if self.node.lp.chain_manager.add_transaction_to_pool(bridge.rtx_to_real(t)):
                 added += 1
+                if rng.random() < 0.3:
+                    # someone offers another spend of the same output, twice (a second peer relays it again): refused both
+                    # times, and the pool the miner draws from stays free of conflicts
+                    r0 = t.refs()[0]
+                    own = [x for x in world.owned(head, ()) if x[0] == r0]
+                    if own:
+                        t2 = world.make_rtx(head, rng, spend=own[:1], fee=rng.choice([0, 3, 500]))
+                        if t2 is not None and t2.id() != t.id():
+                            for _rep in range(2):
+                                try:
+                                    self.node.lp.chain_manager.add_transaction_to_pool(bridge.rtx_to_real(t2))
+                                except Exception:
+                                    pass
+                                self.mon.c["conflicting_offers_to_the_pool"] = self.mon.c.get("conflicting_offers_to_the_pool", 0) + 1
         return added
 
     def mine_one(self, w_base):
@@ -465,6 +479,7 @@ def finalize(m, tier):
                    ("found_at_retarget_boundary_attempts", c.get("found_at_retarget_boundary_attempts", 0), 15),
                    ("clock_ticks_while_mining", c.get("clock_ticks_while_mining", 0), 300),
                    ("found_while_other_thread_flushes", c.get("found_while_other_thread_flushes", 0), 30),
-                   ("found_while_a_connection_is_half_dropped", c.get("found_while_a_connection_is_half_dropped", 0), 20)],
+                   ("found_while_a_connection_is_half_dropped", c.get("found_while_a_connection_is_half_dropped", 0), 20),
+                   ("conflicting_offers_to_the_pool", c.get("conflicting_offers_to_the_pool", 0), 40)],
         "extra": {},
     }
